@@ -67,6 +67,31 @@ PROPS = {
             J("gf2p16", "C11_times", bound="2x2 by 2x2 fully symbolic"),
         ],
     ),
+    "C07": dict(
+        explanation="Reed-Solomon coder: every erasure pattern of small codes, symbolic shard contents, plus unit VCs with symbolic sizes",
+        assumptions=["assembly kernels used through their C09 contract; T.Times/Inverse/Pow run on the real (dumped) tables with concrete operands"],
+        jobs=[
+            J("rsec16", "C07_cauchy_xy", bound="all data/parity counts with d+p <= 65535, all index pairs (symbolic)"),
+            J("rsec16", "C07_generators", bound="all 32768 generators (constant folding over the real init against a specification power)"),
+            J("rsec16", "C07_vandermonde_elem", bound="3x3 block"),
+            J("rsec16", "C07_cauchy", bound="d 1..3, p 1..2, every subset of missing data and parity shards, shard length 2..4 bytes symbolic, goroutines 1..2", must_reach=["not-enough", "reconstructed"]),
+            J("rsec16", "C07_vandermonde", bound="d 1..3, p 1..2, every erasure subset, shard length 2..4 bytes, goroutines 1..2; singularity decided by an independent Gaussian elimination", must_reach=["not-enough", "reconstructed"]),
+            J("rsec16", "C07_cauchy_big", tier="thorough", bound="d 1..5, p 1..3, every erasure subset, shard length 2/18/34 bytes, goroutines 1..3", timeout=14000),
+            J("rsec16", "C07_vandermonde_big", tier="thorough", bound="d 1..5, p 1..3, every erasure subset, shard length 2/18/34 bytes, goroutines 1..3", timeout=14000),
+        ],
+    ),
+    "C12": dict(
+        explanation="partition arithmetic for every length and goroutine count (integer theory), footprint disjointness and equality with single-threaded execution on concrete lengths with symbolic data and matrix",
+        assumptions=["interleavings are not explored: tasks are run sequentially in forward and in reverse spawn order; race freedom is concluded from pairwise disjoint write/read footprints plus the fork/join structure (paper argument, DESIGN.md section 5)",
+                     "the Go memory model"],
+        jobs=[
+            J("rsec16", "C12_params", bound="every total length 0..2^62, every goroutine count 1..2^31, symbolic worker index; min 16, divisor 16"),
+            J("rsec16", "C12_params_out", bound="same with min 1, divisor 1 (applyMatrixParallelOut)"),
+            J("rsec16", "C12_parallel_data", bound="shard length 2..24 bytes, goroutines 1..4, 2x2 symbolic matrix, symbolic data, forward and reverse task order"),
+            J("rsec16", "C12_parallel_data_long", bound="shard length 26..64 bytes, goroutines 1..6 (2..4 workers, clamped last chunk)"),
+            J("rsec16", "C12_parallel_out", bound="shard length 2..6 bytes, goroutines 1..3"),
+        ],
+    ),
 }
 
 
